@@ -24,7 +24,7 @@ TRUSTED = [
     "Coq 8.16.1 kernel and vm_compute; theorems closed under the global context",
     "translator/gen_commit.py (statement classification of Snapshot.take's commit tail; fail closed)",
     "model: a collective barrier lets a rank pass only when every rank has arrived; a raised rank never arrives "
-    "(process-group timeouts are not modelled); one linearised storage history with prefix-growing files",
+    "(a rank blocked in a barrier may time out and raise); one linearised storage history with prefix-growing files",
     "harness: lib/dsched.py + lib/world.py (simulated process group, store and hooked FS plugin), crash-cut materialisation",
 ]
 ASSUMPTIONS = [
@@ -143,7 +143,7 @@ MANIFEST = {
                    "metadata is complete; the per-run obligation is checker(generated skeleton) = true. Real take/async_take "
                    "executions in a simulated multi-rank world (adversarial schedules) must be accepted by the model, satisfy "
                    "the ordering directly, and survive crash cuts materialised on real storage (open raises, or full restore)."),
-    "level_note": ("Trusted: Coq kernel+VM, translator, barrier semantics of the model (no timeouts), simulated process group / "
+    "level_note": ("Trusted: Coq kernel+VM, translator, barrier semantics of the model (with a nondeterministic timeout action), simulated process group / "
                    "store / FS hooks, crash-cut materialisation (one linearised history, prefix-growing files). The async barrier "
                    "protocol itself is proved under C13. No axioms."),
     "technique": "Coq proof of a reflective ordering checker over the source-translated commit skeleton + trace acceptance and crash cuts on real storage",
